@@ -263,6 +263,12 @@ def run(ctx):
     once_enter_value_guarded(db, rep, "D5-LAZY-INIT-VALUE")
 
     d6_acc_slot_width(db, rep)
+    # a generated wrapper hands native code an uncleared stack executor: every counter the code reads must have been stored by it (shared with C03 D8)
+    import emitstate as _es
+    _names = {}
+    for _fld in db.record("OrcExecutor")["fields"]:
+        _names.setdefault(_fld["off"], _fld["name"])
+    _es.check(db.tu("orcprogram-x86"), rep, "D8-COUNTERS-DEFINED", where, offset_names=_names)
 
     # ---- D7: emulation starts every accumulator from zero, also through a wrapper's stack executor (shared with C02 D3)
     import importlib as _il
